@@ -147,8 +147,13 @@ def run(ctx):
                 mcases.append({"id": cid, "op": "arith", "kind": "binop", "bop": op, "sx": s, "sy": TYPES[yt][0], "sr": s,
                                "pairs": [[enc(x, w), enc(y, TYPES[yt][1])] for x, y in ps]})
             # --- var op const / const op var (a handful of constants, all x)
-            if w == 8 or not quick or ctx.rng.random() < 0.35:
+            if w == 8 or not quick or op == "mul" or ctx.rng.random() < 0.35:
                 consts = sorted(set(ctx.rng.sample(boundary_values(yt), min(4, len(boundary_values(yt)))) + ([2, 3] if yt == t else [1, 7]) + ([-1, -2, -3] if TYPES[yt][0] else [])))
+                if op == "mul":
+                    # literal factors at the ends of the type: the rewrite into repeated additions looks at the literal's
+                    # magnitude (a literal just below 2^w must not be mistaken for a small negative one)
+                    lo_t, hi_t = rng_of(yt)
+                    consts = sorted(set(consts + [hi_t, hi_t - 1, hi_t - (w - 2), hi_t // 2 + 1, lo_t, lo_t + 1]))
                 xs = sorted({x for x, _ in ps})[: 256 if quick else 4096]
                 for c in consts:
                     if not (rng_of(yt)[0] <= c <= rng_of(yt)[1]):
